@@ -44,7 +44,7 @@ def main():
     lean_failure = None
     axioms = {}
     try:
-        axioms = common.lean_build_and_audit(generated_hook)
+        axioms = common.lean_build_and_audit(generated_hook, prop)
     except LeanFailure as e:
         lean_failure = e
     if lean_failure is not None and not common.MODEL_BIN.exists():
